@@ -924,4 +924,99 @@ theorem pkgTarget_parts {ext : Name} {tp tp' : PPath} (h : pkgTarget ext tp = .o
     exact Or.inr ⟨hs, hr, hp⟩
   · cases h; exact Or.inl rfl
 
+/-! ## the caching loader only ever stores and serves answers `get_source` gave -/
+
+/-- every cached entry is an answer `get_source` gave, for the entry's key, on one of the file systems seen so far -/
+def CacheInv (cfg : FSLConfig) (H : List (FS × List Ch)) (cache : List CEntry) : Prop :=
+  ∀ e ∈ cache, ∃ fs, (fs, e.key) ∈ H ∧ fslGetSource cfg fs e.key = .ok (e.path, e.content)
+
+theorem cacheFind_some {c : List CEntry} {k : List Ch} {e : CEntry} (h : cacheFind c k = some e) : e ∈ c ∧ e.key = k := by
+  unfold cacheFind at h
+  exact ⟨List.mem_of_find?_eq_some h, by simpa using List.find?_some h⟩
+
+theorem mem_cacheTouch {c : List CEntry} {k : List Ch} {x : CEntry} (h : x ∈ cacheTouch c k) : x ∈ c := by
+  unfold cacheTouch at h
+  split at h
+  · rename_i e he
+    simp only [List.mem_append, List.mem_filter, List.mem_cons, List.not_mem_nil, or_false] at h
+    rcases h with h | rfl
+    · exact h.1
+    · exact (cacheFind_some he).1
+  · exact h
+
+theorem mem_cacheSet {cap : Nat} {c : List CEntry} {e x : CEntry} (h : x ∈ cacheSet cap c e) : x ∈ c ∨ x = e := by
+  unfold cacheSet at h
+  split at h
+  · simp only [List.mem_append, List.mem_filter, List.mem_cons, List.not_mem_nil, or_false] at h
+    rcases h with h | rfl
+    · exact Or.inl h.1
+    · exact Or.inr rfl
+  · simp only [List.mem_append, List.mem_cons, List.not_mem_nil, or_false] at h
+    rcases h with h | rfl
+    · split at h
+      · exact Or.inl (List.mem_of_mem_drop h)
+      · exact Or.inl h
+    · exact Or.inr rfl
+
+theorem fslLoad_ok {cfg : FSLConfig} {fs : FS} {mt : Comps → Nat} {name : List Ch} {e : CEntry}
+    (h : fslLoad cfg fs mt name = .ok e) : e.key = name ∧ fslGetSource cfg fs name = .ok (e.path, e.content) := by
+  unfold fslLoad at h
+  split at h
+  · cases h
+  · rename_i p c hg
+    split at h
+    · cases h; exact ⟨rfl, hg⟩
+    · cases h
+
+theorem CacheInv.mono {cfg : FSLConfig} {H : List (FS × List Ch)} {cache : List CEntry} (x : FS × List Ch)
+    (h : CacheInv cfg H cache) : CacheInv cfg (x :: H) cache :=
+  fun e he => let ⟨fs, hm, hg⟩ := h e he; ⟨fs, List.mem_cons_of_mem _ hm, hg⟩
+
+/-- one request: the invariant is kept and the answer, if any, is a past or present answer for this very name -/
+theorem cachedLoad_step (L : CCfg) (fs : FS) (mt : Comps → Nat) (H : List (FS × List Ch)) (cache : List CEntry)
+    (name : List Ch) (hinv : CacheInv L.fsl H cache) :
+    CacheInv L.fsl ((fs, name) :: H) (cachedLoad L fs mt cache name).1 ∧
+    ∀ p c, (cachedLoad L fs mt cache name).2 = .ok (p, c) →
+      ∃ fs', (fs', name) ∈ (fs, name) :: H ∧ fslGetSource L.fsl fs' name = .ok (p, c) := by
+  have hmono := CacheInv.mono (fs, name) hinv
+  have touch : CacheInv L.fsl ((fs, name) :: H) (cacheTouch cache name) :=
+    fun e he => hmono e (mem_cacheTouch he)
+  have set_ok : ∀ (c0 : List CEntry) (e : CEntry), CacheInv L.fsl ((fs, name) :: H) c0 →
+      fslLoad L.fsl fs mt name = .ok e → CacheInv L.fsl ((fs, name) :: H) (cacheSet L.capacity c0 e) := by
+    intro c0 e h0 hl x hx
+    rcases mem_cacheSet hx with hx | rfl
+    · exact h0 x hx
+    · obtain ⟨hk, hg⟩ := fslLoad_ok hl
+      exact ⟨fs, by rw [hk]; simp, by rw [hk]; exact hg⟩
+  have fresh : ∀ (e : CEntry) p c, fslLoad L.fsl fs mt name = .ok e → (e.path, e.content) = (p, c) →
+      ∃ fs', (fs', name) ∈ (fs, name) :: H ∧ fslGetSource L.fsl fs' name = .ok (p, c) := by
+    intro e p c hl heq
+    obtain ⟨_, hg⟩ := fslLoad_ok hl
+    exact ⟨fs, by simp, by rw [← heq]; exact hg⟩
+  have stale : ∀ (ent : CEntry) p c, cacheFind cache name = some ent → (ent.path, ent.content) = (p, c) →
+      ∃ fs', (fs', name) ∈ (fs, name) :: H ∧ fslGetSource L.fsl fs' name = .ok (p, c) := by
+    intro ent p c hf heq
+    obtain ⟨hm, hk⟩ := cacheFind_some hf
+    obtain ⟨fs', hm', hg⟩ := hinv ent hm
+    exact ⟨fs', by rw [← hk]; exact List.mem_cons_of_mem _ hm', by rw [← heq, ← hk]; exact hg⟩
+  unfold cachedLoad
+  split
+  · -- miss
+    split
+    · rename_i e hl
+      exact ⟨set_ok _ _ hmono hl, fun p c h => fresh e p c hl (by simpa using h)⟩
+    · exact ⟨hmono, fun p c h => by simp at h⟩
+  · rename_i ent hf
+    simp only
+    split
+    · split
+      · exact ⟨touch, fun p c h => by simp at h⟩
+      · exact ⟨touch, fun p c h => stale ent p c hf (by simpa using h)⟩
+      · split
+        · rename_i e hl
+          exact ⟨set_ok _ _ touch hl, fun p c h => fresh e p c hl (by simpa using h)⟩
+        · exact ⟨touch, fun p c h => by simp at h⟩
+    · exact ⟨touch, fun p c h => stale ent p c hf (by simpa using h)⟩
+
+
 end LiquidVerif.PathSafe
